@@ -9,7 +9,8 @@
 //!                   failing seed); the verdict is the printed line.
 //!   native[:COUNT]  COUNT consecutive case seeds starting at <case-seed>; each seed is run as its
 //!                   small case (the same case `miri` runs) and as its big case, on real pools of
-//!                   1, 3 and 8 threads. One result line per case.
+//!                   1, 3 and 8 threads. One result line per case. C34: each case additionally solves
+//!                   c34::NATIVE_EXTRA_CORNER further "corner" problems on the 1-thread pool only.
 //!   exhaustive      (C27) every simple directed graph on <= 4 nodes, sequential branch.
 //!   describe        print the small and big case for the seed, run nothing.
 //!
@@ -88,7 +89,10 @@ fn main() {
     let mut ok = true;
     if mode == "describe" {
         if prop == "C34" {
-            for big in [false, true] { for f in 0..3 { println!("{}", c34::Case::generate(seed, big, f).describe()); } }
+            for big in [false, true] {
+                for f in 0..c34::FLAVOURS.len() { println!("{}", c34::Case::generate(seed, big, f).describe()); }
+                for k in 1..=c34::NATIVE_EXTRA_CORNER { println!("{}", c34::Case::generate_sub(seed, big, 3, k).describe()); }
+            }
         } else {
             println!("{}", c27::Case::generate(seed, false).describe());
             println!("{}", c27::Case::generate(seed, true).describe());
@@ -98,7 +102,7 @@ fn main() {
         let o = if prop == "C34" {
             // 1-thread run = the sequential schedule the 3-thread run must reproduce bit for bit
             let p1 = pool(1);
-            c34::check(seed, false, &[(1usize, &p1), (3usize, &p3)])
+            c34::check(seed, false, &[(1usize, &p1), (3usize, &p3)], 0)
         } else {
             let case = c27::Case::generate(seed, false);
             if case.kind == c27::Kind::PrBoundary {
@@ -120,7 +124,7 @@ fn main() {
         let pools = [(1usize, &p1), (3usize, &p3), (8usize, &p8)];
         for s in seed..seed + count {
             for big in [false, true] {
-                let o = if prop == "C34" { c34::check(s, big, &pools) } else { c27::check(&c27::Case::generate(s, big), &pools) };
+                let o = if prop == "C34" { c34::check(s, big, &pools, c34::NATIVE_EXTRA_CORNER) } else { c27::check(&c27::Case::generate(s, big), &pools) };
                 ok &= report(prop, s, if big { "big" } else { "small" }, &o);
             }
         }
